@@ -106,8 +106,10 @@ def radial : Op := fun j => do
   let o ← getPt (← field j "origin")
   let c ← getPt (← field j "centre")
   let cs ← getPt (← field j "cos_sin")
+  -- optional: the caller's explicit `shape_slim` (0 = derive the length from the extent, as the code does)
+  let n ← getNat (fieldD j "shape_slim" (natToJson 0))
   let rot : Rat × Rat → Rat × Rat := fun r => (r.1 * cs.1 - r.2 * cs.2, r.2 * cs.1 + r.1 * cs.2)
-  pure (gridToJson (Impl.radialProjected truncRat rot (Impl.extent shape s o) s c 0))
+  pure (gridToJson (Impl.radialProjected truncRat rot (Impl.extent shape s o) s c n))
 
 def ops : List (String × Op) :=
   [("c12.entries", entries), ("c12.rect_mapper", rectMapper), ("c12.radial", radial)]
